@@ -239,10 +239,11 @@ def units(tier, seed=0):
                 txt, L = vec.c_unit(spec, f, maxc=3)   # the comparison oracle enumerates the span items
             src_watch = [('move_assign.src_watch', 'h_move_assign_src', 'move_assign', ['C06', 'C09'], [], {'cdefs': ['VF_WINDOWS=1'], 'two': True, 'srcwatch': True})] if spec == 'f4t' else []
             if spec == 'f4t':
+                src_watch.append(('copy_assign.src_watch', 'h_copy_assign_src', 'copy_assign', ['C06', 'C09'], [], {'cdefs': ['VF_WINDOWS=1'], 'two': True, 'srcwatch': 'copy_assign'}))
                 src_watch.append(('copy_ctor.src_watch', 'h_copy_ctor_src', 'copy_ctor', ['C06', 'C09'], [], {'cdefs': ['VF_WINDOWS=1'], 'srcwatch': 'copy_ctor'}))
             for name, h, key, props, repl, extra in vec.VEC_UNITS_COMMON + (vec.VEC_UNITS_VAR if L.is_varying() else vec.VEC_UNITS_FIXED) + src_watch:
                 if tracked:
-                    if name not in ('pop_back', 'clear', 'erase', 'dtor', 'emplace_back', 'subscript', 'copy_assign', 'move_assign', 'move_assign.src_watch', 'copy_ctor.src_watch', 'moved_from') + (TRACKED_RELOC if len(L.params) == 1 else ()):
+                    if name not in ('pop_back', 'clear', 'erase', 'dtor', 'emplace_back', 'subscript', 'copy_assign', 'move_assign', 'move_assign.src_watch', 'copy_ctor.src_watch', 'copy_assign.src_watch', 'moved_from') + (TRACKED_RELOC if len(L.params) == 1 else ()):
                         continue
                     if name in ('copy_assign', 'move_assign') and len(L.params) > 1:
                         continue   # exceeds the memory budget for mixed lists
@@ -255,7 +256,7 @@ def units(tier, seed=0):
                 u = dict(id='vec.%s.F%d.%s' % (L.tag, f, name), tu='vec_%s_F%d' % (L.tag, f), gen=cxx, template_text=txt, vars={}, entry=h,
                          enforce=('@F{%s}' % vec.RXV[key]) if key else None, replace=['@F{%s}' % vec.REPL[r] for r in repl], props=props, layer='vector.hpp/elementLocator.hpp',
                          kind=extra.get('kind', 'proof'), config='vector: %s, allocator traits F=%d' % (spec, f), replay='history')
-                if extra.get('srcwatch'): u['template_text'] = copy_ctor_src_watch_text(txt) if extra['srcwatch'] == 'copy_ctor' else src_watch_text(txt)
+                if extra.get('srcwatch'): u['template_text'] = copy_ctor_src_watch_text(txt) if extra['srcwatch'] == 'copy_ctor' else copy_assign_src_watch_text(txt) if extra['srcwatch'] == 'copy_assign' else src_watch_text(txt)
                 if extra.get('intonly') and not all(q.elem in 'ux' for q in L.params): continue
                 if name == 'default_constructed' and L.nfixed and L.nvar: continue   # `V v;` leaves the fixed sizes of a mixed list indeterminate; reserve reads them: outside the contract of the library (false alarm corrected, DESIGN 14)
                 if extra.get('bytesonly') and not all(q.kind in 'pc' and q.elem == 'u' and q.size == 1 for q in L.params): continue
@@ -449,6 +450,25 @@ void h_uc(void)
     F_UC(src, a, n);
 }
 ''' % dict(rx=REV_RX)
+
+
+def copy_assign_src_watch_text(txt):
+    """copy assignment of a Tracked vector with the watched object in the source operand: the source objects stay alive and are not moved from"""
+    old_clause = '__CPROVER_ensures(MEM(v) != g_pre.mem ? (TRIVIAL_DTOR || !g_o_alive) : LIFE(v))'
+    assert txt.count(old_clause) == 2 and txt.count('\nvoid h_copy_assign(void)\n') == 1 and txt.count('static Vp mkvec_o(void)') == 1
+    txt = txt.replace(old_clause, '__CPROVER_ensures(g_o_src || (MEM(v) != g_pre.mem ? (TRIVIAL_DTOR || !g_o_alive) : LIFE(v)))')
+    txt = txt.replace('static Vp mkvec_o(void)', 'static uint8_t g_o_src; /* 1: the watched object is a valid item of the source operand */\nstatic Vp mkvec_o(void)', 1)
+    i = txt.index('\nvoid h_copy_assign(void)\n'); j = txt.index('\n}', i) + 2
+    h = txt[i:j].replace('h_copy_assign(void)', 'h_copy_assign_src(void)')
+    watch = (' g_ok = nondet_u8(); g_oj = nondet_u8(); __CPROVER_assume(g_ok < CAPK_O && g_oj < MAXC);'
+             ' if (OVALID(o)) { g_o = OITEM(o); g_o_alive = g_ok < COUNT(o); g_o_src = 1; } else { g_o = malloc(4); g_o_alive = 0; g_o_src = 0; }'
+             ' g_o_how = 0; g_o_from = 0; g_o_asg = 0; g_o_moved_from = 0;')
+    assert 'Vp o = mkvec_o();' in h
+    h = h.replace('Vp o = mkvec_o();', 'Vp o = mkvec_o();' + watch, 1)
+    txt = txt[:j] + h + txt[j:]
+    k = txt.index('\n__CPROVER_assigns(', txt.index('\nVp F_COPY_ASSIGN('))
+    clause = '\n__CPROVER_ensures(!g_o_src || (g_o_alive == (g_ok < COUNT(o)) && !g_o_moved_from && MEM(o) == g_pre_o.mem)) /* C06 C09: copy assignment leaves the objects of the source alive, in place and not moved from */'
+    return txt[:k] + clause + txt[k:]
 
 
 def src_watch_text(txt):
